@@ -39,6 +39,12 @@ func TestMain(m *testing.M) {
 			"Scan: seek/end keys always carry the scan prefix",
 			"Delete answering ErrTxReadConflict is accepted (a refusal leaves no trace); it is counted",
 			"errors are compared by class (errors.Is against the exported sentinel errors)",
+			"a FlushIndex/CompactIndex call that answers with an error (threshold not reached, target exists, snapshots open) is not a violation by itself; the reads that follow are still checked",
+			"implicit conditions of Delete (key is live), SetReference/ZAdd/ExecAll (referenced key exists and is not a reference; final key is absent or a reference) are treated like preconditions: " +
+				"true on state(id-1) for an applied write, false on some state of the window for a refused one",
+			"the porcupine cross-check of the design is replaced by an own Wing-Gong register search over single-key sub-histories (plain Get/GetAll, writes, deletes, refused single-condition writes) " +
+				"on a logical call/return clock: it only serves to catch a too lenient window oracle (porcupine is not in go.mod and the shared module was not touched)",
+			"while K06a is listed as known, CompactIndex is only run at a quiescent point (between preload and clients), never concurrently with writers (counted as excluded)",
 		},
 		Probes: []vk.Probe{
 			{ID: kCompaction, Present: probeCompaction},
@@ -270,19 +276,19 @@ func checkHistory(rt *rapid.T, c *vk.Case, m *model, h *history) *stats {
 }
 
 func TestLinearizableMixed(t *testing.T) {
-	vk.Check(t, 400, 16000, func(rt *rapid.T, c *vk.Case) {
+	vk.Check(t, 400, 10000, func(rt *rapid.T, c *vk.Case) {
 		runCase(rt, c, mixedProfile, shape{minClients: 3, maxClients: 8, minKeys: 6, maxKeys: 12, minOps: 8, maxOps: 25, preloadMax: 8})
 	})
 }
 
 func TestConditionalRace(t *testing.T) {
-	vk.Check(t, 300, 10000, func(rt *rapid.T, c *vk.Case) {
+	vk.Check(t, 300, 5500, func(rt *rapid.T, c *vk.Case) {
 		runCase(rt, c, casProfile, shape{minClients: 3, maxClients: 8, minKeys: 6, maxKeys: 7, minOps: 10, maxOps: 30, preloadMax: 3})
 	})
 }
 
 func TestReadsUnderWriters(t *testing.T) {
-	vk.Check(t, 300, 10000, func(rt *rapid.T, c *vk.Case) {
+	vk.Check(t, 300, 5500, func(rt *rapid.T, c *vk.Case) {
 		runCase(rt, c, readProfile, shape{minClients: 4, maxClients: 8, minKeys: 6, maxKeys: 10, minOps: 10, maxOps: 25, preloadMax: 10})
 	})
 }
